@@ -27,6 +27,7 @@ func replayDigests(h *History) (digests []string, harnessPanic string) {
 		}
 	}()
 	a := NewApp()
+	a.noNodeRestart = true // a commit-mode history restarted its node now and then; the replica never does
 	mon := NewMon(NewStats())
 	r := Replay(a, h, mon)
 	return r.digests, ""
